@@ -252,16 +252,30 @@ def r3_counters(ctx, rep, R='C17.R3'):
         lp = loops[0]
         tc = lp.target.id
         mk = [c for c in ast.walk(lp) if _creates(c, 'testcase')]
-        okl = len(mk) == 1 and not path_literals(mk[0], lp) and \
-            not any(isinstance(x, (ast.Break, ast.Continue)) for x in ast.walk(lp))
+        from .common import guard_literals
+        g = ctx.cfg(fi)
+        head = [n.id for n in g.nodes if n.kind == 'for' and n.stmt is lp]
+
+        def loop_lits(call):
+            """branch literals that hold whenever *call* is evaluated and that concern this record"""
+            return [(norm(e), pos) for e, pos in guard_literals(ctx, fi, call, g=g)
+                    if any(is_name(x, tc) for x in ast.walk(e))]
+        okl = len(mk) == 1 and not loop_lits(mk[0]) and bool(head)
+        if okl:
+            # one element per record: every pass of the loop creates it (no early continue/break before)
+            mkn = nodes_calling(g, lambda c: c is mk[0])
+            body = [d for d, k in g.succ[head[0]] if k == 'true']
+            okp, _w = g.every_path_passes(body, [head[0], g.exit], set(mkn), include_start=True,
+                                          edge_ok=lambda s_, d_, k_: k_ != 'exc')
+            okl = okp and not any(isinstance(x, ast.Break) for x in ast.walk(lp))
         # failure / error children under the truthiness of the record's own field
         for kind in ('failure', 'error'):
             el = [c for c in ast.walk(lp) if _creates(c, kind)]
             good = len(el) == 1
             if good:
-                lits = path_literals(el[0], lp)
-                good = [(norm(e), pos) for e, pos in lits] in (
-                    [('%s.%s' % (tc, kind), True)], [('%s.%s is None' % (tc, kind), False)])
+                good = loop_lits(el[0]) in (
+                    [('%s.%s' % (tc, kind), True)], [('%s.%s is None' % (tc, kind), False)],
+                    [('%s.%s is not None' % (tc, kind), True)])
             rep.check(good, R, '<%s> child created iff testCase.%s' % (kind, kind),
                       'the <%s> element is not created exactly for records with a %s' % (kind, kind),
                       key='child:' + kind, func=fi.qualname, where=ctx.where(fi, lp))
